@@ -1,0 +1,140 @@
+//go:build verif
+
+package websocket
+
+// Contracts for govc (contract-based deductive verification). Comment-only: this file
+// contributes no declarations and is compiled only with -tags verif.
+
+// ---- rooms (C16) ---------------------------------------------------------------------
+// Monitor invariants: a room never holds more connections than the limit in force; the room
+// table maps names to rooms; the hub respects its connection limit. Every access to the
+// guarded fields must happen with the mutex held (guarded-by obligations).
+
+//@ monitor Room.mu guards connections, maxConnections invariant self.connections != nil && (self.maxConnections > 0 ==> len(self.connections) <= self.maxConnections)
+//@ monitor RoomManager.mu guards rooms invariant self.rooms != nil && forall(k, string, has(self.rooms, k) ==> self.rooms[k] != nil)
+//@ monitor Connection.roomsMu guards rooms invariant self.rooms != nil
+//@ monitor Hub.connMu guards connections owner (*Hub).Run invariant self.connections != nil
+
+//@ func (*Room).Add
+//@   modifies allfields(Room.connections), allfields(Room.maxConnections), allmaps(map[*Connection]bool)
+//@   requires r != nil && ErrRoomFull != nil
+//@   strict
+//@   ensures err == nil ==> has(r.connections, conn) && r.connections[conn]
+//@   ensures err != nil ==> err == ErrRoomFull && r.maxConnections > 0 && len(r.connections) >= r.maxConnections
+//@   check forall(c, *Connection, c != conn ==> has(r.connections, c) == atlock(has(r.connections, c)))
+//@   check err != nil ==> has(r.connections, conn) == atlock(has(r.connections, conn))
+
+//@ func (*Room).Remove
+//@   modifies allfields(Room.connections), allfields(Room.maxConnections), allmaps(map[*Connection]bool)
+//@   requires r != nil
+//@   strict
+//@   ensures !has(r.connections, conn)
+//@   check forall(c, *Connection, c != conn ==> has(r.connections, c) == atlock(has(r.connections, c)))
+
+//@ func (*Room).Has
+//@   modifies allfields(Room.connections), allfields(Room.maxConnections), allmaps(map[*Connection]bool)
+//@   requires r != nil
+//@   strict
+//@   ensures result == (has(r.connections, conn) && r.connections[conn])
+
+//@ func (*Room).Size
+//@   modifies allfields(Room.connections), allfields(Room.maxConnections), allmaps(map[*Connection]bool)
+//@   requires r != nil
+//@   strict
+//@   ensures result == len(r.connections)
+
+//@ func (*Room).Clear
+//@   modifies allfields(Room.connections), allfields(Room.maxConnections), allmaps(map[*Connection]bool)
+//@   requires r != nil
+//@   strict
+//@   ensures len(r.connections) == 0
+
+// A room message is sent only on the send channel of a current member, under the room lock.
+//@ func (*Room).Broadcast
+//@   requires r != nil
+//@   sendpre exists(c, *Connection, has(r.connections, c) && c.send == ch && (exclude == nil || c != exclude))
+
+// Called only on a room that is not yet published (structural check): exempt from the invariant.
+//@ func (*Room).SetMaxConnections
+//@   modifies allfields(Room.connections), allfields(Room.maxConnections), allmaps(map[*Connection]bool)
+//@   requires r != nil
+//@   nomonitor
+//@   strict
+
+//@ func NewRoom
+//@   modifies nothing
+//@   ensures result != nil && fresh(result) && result.connections != nil && len(result.connections) == 0 && result.maxConnections == 0
+
+//@ func (*RoomManager).GetOrCreateRoom
+//@   modifies allfields(RoomManager.rooms), allmaps(map[string]*Room), allfields(Room.connections), allfields(Room.maxConnections), allmaps(map[*Connection]bool)
+//@   requires rm != nil
+//@   strict
+//@   ensures result != nil && has(rm.rooms, name) && rm.rooms[name] == result
+
+//@ func (*RoomManager).CreateRoom
+//@   modifies allfields(RoomManager.rooms), allmaps(map[string]*Room), allfields(Room.connections), allfields(Room.maxConnections), allmaps(map[*Connection]bool)
+//@   requires rm != nil
+//@   strict
+//@   ensures result != nil && has(rm.rooms, name) && rm.rooms[name] == result
+
+//@ func (*RoomManager).GetRoom
+//@   modifies allfields(RoomManager.rooms), allmaps(map[string]*Room)
+//@   requires rm != nil
+//@   strict
+//@   ensures result1 == has(rm.rooms, name) && (result1 ==> result == rm.rooms[name] && result != nil)
+
+//@ func (*RoomManager).AddConnectionToRoom
+//@   requires rm != nil && ErrRoomFull != nil
+//@   modifies allfields(RoomManager.rooms), allmaps(map[string]*Room), allfields(Room.connections), allfields(Room.maxConnections), allmaps(map[*Connection]bool)
+//@   ensures result == nil ==> has(rm.rooms, roomName) && rm.rooms[roomName] != nil && has(rm.rooms[roomName].connections, conn) && rm.rooms[roomName].connections[conn]
+//@   ensures result != nil ==> result == ErrRoomFull
+
+//@ func (*RoomManager).RemoveConnectionFromRoom
+//@   requires rm != nil
+//@   modifies allfields(RoomManager.rooms), allmaps(map[string]*Room), allfields(Room.connections), allfields(Room.maxConnections), allmaps(map[*Connection]bool)
+//@   ensures has(rm.rooms, roomName) ==> !has(rm.rooms[roomName].connections, conn)
+
+//@ func (*Hub).GetRoomManager
+//@   trusted
+//@   modifies nothing
+//@   ensures result == h.roomManager
+
+// The connection's own view agrees with the room's membership.
+//@ spec func member(c *Connection, name string) bool = has(c.hub.roomManager.rooms, name) && c.hub.roomManager.rooms[name] != nil && has(c.hub.roomManager.rooms[name].connections, c) && c.hub.roomManager.rooms[name].connections[c]
+//@ func (*Connection).JoinRoom
+//@   requires c != nil && c.hub != nil && c.hub.roomManager != nil && ErrRoomFull != nil
+//@   strict
+//@   check err == nil ==> has(c.rooms, roomName) && c.rooms[roomName] && member(c, roomName)
+//@   check err != nil ==> has(c.rooms, roomName) == old(has(c.rooms, roomName)) && c.rooms[roomName] == old(c.rooms[roomName])
+
+//@ func (*Connection).LeaveRoom
+//@   requires c != nil && c.hub != nil && c.hub.roomManager != nil
+//@   strict
+//@   ensures !has(c.rooms, roomName) && !member(c, roomName)
+
+//@ func (*Connection).IsInRoom
+//@   requires c != nil
+//@   strict
+//@   ensures result == (has(c.rooms, roomName) && c.rooms[roomName])
+
+// Hub event loop: every critical section over the connection table re-establishes the hub limit.
+// Handlers invoked by the loop reach hub state only through the monitor-protected tables.
+//@ func (*Hub).Run
+//@   requires h != nil && h.roomManager != nil && h.config != nil && ErrRoomFull != nil && !held(addr(h.connMu))
+//@   unknowncalls like dyncall
+//@   dyncall modifies allfields(Hub.connections), allmaps(map[*Connection]bool), allfields(Room.connections), allfields(Room.maxConnections), allfields(RoomManager.rooms), allmaps(map[string]*Room), allfields(Connection.rooms), allmaps(map[string]bool)
+//@   atunlock heldw(addr(h.connMu)) && h.config.MaxConnectionsPerHub > 0 && len(h.connections) > atlock(len(h.connections)) ==> atlock(len(h.connections)) < h.config.MaxConnectionsPerHub && len(h.connections) == atlock(len(h.connections)) + 1
+//@   loop 1 invariant h.roomManager != nil && h.config != nil && ErrRoomFull != nil
+//@   loop 2 invariant h.roomManager != nil && h.config != nil && ErrRoomFull != nil
+//@   loop 3 invariant h.roomManager != nil && h.config != nil && ErrRoomFull != nil
+//@   loop 4 invariant h.roomManager != nil && h.config != nil && ErrRoomFull != nil
+//@   loop 5 invariant h.roomManager != nil && h.config != nil && ErrRoomFull != nil
+//@   loop 6 invariant h.roomManager != nil && h.config != nil && ErrRoomFull != nil && heldw(addr(h.connMu)) && len(h.connections) <= atlock(len(h.connections))
+
+// Removing a connection from every room only ever shrinks connection sets (trusted summary: the
+// function ranges over the room table under its read lock and calls Room.Remove on each room).
+//@ func (*RoomManager).RemoveConnectionFromAllRooms
+//@   trusted
+//@   requires rm != nil
+//@   modifies allfields(RoomManager.rooms), allmaps(map[string]*Room), allfields(Room.connections), allfields(Room.maxConnections), allmaps(map[*Connection]bool)
+//@   ensures forall(m, map[*Connection]bool, len(m) <= old(len(m)))
